@@ -336,10 +336,9 @@ impl SwiftField for Field59 {
                 let field = Field59F::parse(value)?;
                 Ok(Field59::F(field))
             }
-            _ => {
-                // Unknown variant, fall back to default parse behavior
-                Self::parse(value)
-            }
+            Some(other) => Err(ParseError::InvalidFormat {
+                message: format!("Option {} is not supported by this field", other),
+            }),
         }
     }
 
@@ -397,10 +396,9 @@ impl SwiftField for Field59Debtor {
                 let field = Field59A::parse(value)?;
                 Ok(Field59Debtor::A(field))
             }
-            _ => {
-                // Unknown variant, fall back to default parse behavior
-                Self::parse(value)
-            }
+            Some(other) => Err(ParseError::InvalidFormat {
+                message: format!("Option {} is not supported by this field", other),
+            }),
         }
     }
 
